@@ -39,8 +39,10 @@ void Signal::set()
 #else
   VERIFY(pthread_mutex_lock((pthread_mutex_t*)mdata) == 0);
   signaled = true;
-  VERIFY(pthread_mutex_unlock((pthread_mutex_t*)mdata) == 0);
+  // broadcast while the mutex is held: a waiter that sees the flag may destroy this object as soon as
+  // it got the mutex, so the unlock has to be the last access of set() to the object
   VERIFY(pthread_cond_broadcast((pthread_cond_t*)cdata) == 0);
+  VERIFY(pthread_mutex_unlock((pthread_mutex_t*)mdata) == 0);
 #endif
 }
 
